@@ -301,7 +301,45 @@ def r5(ctx):
     ctx.floor(R, 3)
 
 
+OP_TABLE = {"mkdir_with_mode": "CreateDir", "rmdir": "RemoveDir", "unlink": "RemoveFile", "rename": "Rename", "write_file": "Write",
+            "set_file_len": "SetLen", "create_file_with_mode": "CreateFile", "create_symlink": "CreateSymlink",
+            "create_hard_link": "CreateHardLink", "set_permissions": "SetPermissions"}
+
+
+def r6(ctx):
+    R = "C07-R6"
+    ctx.rule(R, "every mutating Fs operation logs exactly its own record kind: the PendingOp variant pushed onto Fs::pending by each of the ten "
+                "operation functions is the one of the table, and no Ok / normal return of an operation that changed nothing else skips the "
+                "push (a change that is not in the log can neither be rolled back by crash nor flushed by sync)")
+    for fn, want in OP_TABLE.items():
+        b = ctx.body(R, FS + fn)
+        if not b:
+            continue
+        kinds = set()
+        pushes = []
+        for bb, t in b.calls(re.compile(r"^std::vec::Vec::push$")):
+            if FS + "pending" not in _fields_of(b, t["args"][0]):
+                continue
+            o = origin(b, t["args"][1])
+            v = o["r"].get("variant") if o["k"] == "agg" and o["r"].get("adt") == OP else "?"
+            kinds.add(v)
+            pushes.append(bb)
+        ok = kinds == {want}
+        ctx.inst(R, f"{fn}:logs-{want}", ok, b.span, f"{fn} appends PendingOp::{want}" if ok else
+                 f"`{FS}{fn}` appends {sorted(kinds)} instead of exactly PendingOp::{want}: the operation is rolled back / flushed as the wrong kind (or not at all)")
+        if fn in ("create_file_with_mode", "set_file_len", "create_symlink", "create_hard_link", "set_permissions", "mkdir_with_mode", "rmdir", "unlink"):
+            # every Ok(()) / unit return passes a push (error returns are exempt)
+            okr = [x for x, i, st in b.all_stmts() if st["p"]["l"] == 0 and not st["p"].get("p") and
+                   ((st["r"]["k"] == "agg" and st["r"].get("variant") == "Ok") or (st["r"]["k"] == "agg" and st["r"].get("ak") == "tuple" and not st["r"]["ops"]) or
+                    (st["r"]["k"] == "use" and op_const(st["r"]["o"]) is not None and "()" in str(op_const(st["r"]["o"]).get("k"))))]
+            miss = [x for x in okr if not b.dominated_by_any(x, blocks=pushes)]
+            ctx.inst(R, f"{fn}:success-implies-logged", not miss and bool(pushes), b.span, "every successful return has logged the operation" if not miss and pushes else
+                     f"`{FS}{fn}` can return success without having appended to the pending log")
+    ctx.floor(R, 16)
+
+
 def run(ctx):
+    r6(ctx)
     r1(ctx)
     r2(ctx)
     r3(ctx)
